@@ -552,6 +552,9 @@ class MetaMessage(BaseMessage):
         while flag and scan_end < len(msg_bytes):
             scan_end += 1
             length_data = msg_bytes[2:scan_end]
+            if length_data[-1] & 0x80:
+                # The variable length quantity is not complete yet.
+                continue
             length = decode_variable_int(length_data)
             data = msg_bytes[scan_end:]
             if length == len(data):
